@@ -61,3 +61,15 @@ Check @Closed.C09_cached_search_same.
 Print Assumptions C08_closed_score_is_minimax.
 Print Assumptions C08_closed_ab_is_generic.
 Print Assumptions Closed.C09_cached_search_same.
+
+(* the fast oracle used by the correspondence at depth >= 4 is the plain-minimax oracle *)
+Theorem C08_root_values_ab_eq : forall T rook_t bishop_t d b,
+  Reach.Sound T rook_t bishop_t (S d) b ->
+  Search.root_values_ab T rook_t bishop_t (S d) b = Search.root_values T rook_t bishop_t (S d) b.
+Proof. exact Closed.root_values_ab_eq. Qed.
+Print Assumptions C08_root_values_ab_eq.
+
+(* D13 (repaired): the cache key must carry the half-move clock near the move-count draw *)
+From ChessV Require ClockKey.
+Check ClockKey.key_without_clock_refuted.
+Print Assumptions ClockKey.key_without_clock_refuted.
